@@ -12,7 +12,7 @@ Model of `cocls::generator_aggregator` (generator_aggregator.h) over `n` scripte
   (with the argument of the access), `co_await queue.pop()` (parks when the queue is empty, is woken by the next
   push), the `done()` / `value()` examination of the popped source, `co_yield`, the final rethrow of the stored
   exception, and the controller destructor draining the outstanding sources before the frames are destroyed.
-* Ghost fields (`out`, `calls`, `got`, `thrown`, `drained`, `badDestroy`) are never read by the control flow.
+* Ghost fields (`started`, `out`, `calls`, `got`, `thrown`, `dcur`, `drained`, `badDestroy`) are never read by the control flow.
 -/
 namespace Cocls.Agg
 
@@ -68,10 +68,12 @@ structure State where
   count : Nat := 0                         -- `cnt._count` (0 before the controller is constructed)
   exp : Option Nat := none                 -- `exp`
   -- ghost
+  started : Bool := false                  -- the coroutine body has been entered (first access made)
   out : List (Nat × Nat) := []             -- (source, value) handed to the consumer, in order
   calls : List Nat := []                   -- arguments of the accesses that resumed the aggregator, in order
   got : Nat → List Nat := fun _ => []      -- arguments received by each source, in order
   thrown : List (Nat × Nat) := []          -- (source, code) caught by the aggregator, in order
+  dcur : Option Nat := none                -- the source whose value the consumer held when it destroyed the aggregate
   drained : Nat := 0                       -- pops performed by the controller destructor
   badDestroy : List Nat := []              -- sources whose frame was destroyed while in flight
 
@@ -132,7 +134,7 @@ def popHandle (s : State) : State :=
     | SRes.exc e => { s with q := r, st := upd s.st k SSt.fin, count := s.count - 1, exp := some e,
                              thrown := s.thrown ++ [(k, e)], ag := Ag.loop }
     | SRes.val v => { s with q := r, st := upd s.st k SSt.cur, out := s.out ++ [(k, v)], ag := Ag.parkedYield k }
-    | SRes.none => { s with q := r }
+    | SRes.none => s   -- unreachable: a queued source has left a result (`Inv2.queued_res`)
 
 def inflightList (s : State) : Nat → List Nat
   | 0 => []
@@ -160,7 +162,7 @@ def aggStep (c : Cfg) (s : State) : State :=
 
 def stepNext (c : Cfg) (s : State) (a : Nat) : State :=
   match s.ag with
-  | Ag.init => { s with ag := Ag.charging 0 a, count := c.n, calls := [a] }
+  | Ag.init => { s with ag := Ag.charging 0 a, count := c.n, started := true, calls := [a] }
   | Ag.parkedYield k => { s with ag := Ag.recharge k a, calls := s.calls ++ [a] }
   | _ => s
 
@@ -169,7 +171,8 @@ def stepResolve (c : Cfg) (s : State) (k : Nat) : State :=
 
 def stepDestroy (s : State) : State :=
   match s.ag with
-  | Ag.init | Ag.parkedYield _ | Ag.done | Ag.failed _ => { s with ag := Ag.draining }
+  | Ag.parkedYield k => { s with ag := Ag.draining, dcur := some k }
+  | Ag.init | Ag.done | Ag.failed _ => { s with ag := Ag.draining }
   | _ => s
 
 def step (c : Cfg) (s : State) (op : Op) : State :=
